@@ -36,7 +36,7 @@ ASSUMPTIONS = ["reference fragmenter/reassembler in checks/netref.py (TMRh20 num
 CLAUSES = {"fragments": "ceil(n/24) frames, one id, first/more/last, descending counter, type in the last reserved byte",
            "reassembly": "a TMRh20-style receiver reassembles exactly the original message", "restored": "caller's header shows its original type after sending",
            "layout": "8 bytes: origin, destination, id little-endian 16 bit, type, reserved; short buffers refused"}
-PROBES = ["outage_healed_in_time", "outage_outlasted_the_retries", "stray_network_ack_during_fragment_wait"]
+PROBES = ["outage_healed_in_time", "outage_outlasted_the_retries", "stray_network_ack_during_fragment_wait", "forwarded_between_two_fragments", "reception_between_two_messages"]
 SHRINK_KEYS = ("msgs", "faults")
 CHUNK = 20
 NDIRECT = 8
@@ -65,13 +65,18 @@ def make(i, base_seed, tier):
         return {"seed": seed, "kind": "air", "routed": (j % per) % 2 == 1, "faults": [],
                 "msgs": [{"len": ln, "type": rng.choice([0, 1, 65, 127, rng.randint(0, 127)]), "seed": rng.getrandbits(20),
                           "fid": rng.choice([0, 1, 0xFFFE, 0xFFFF, rng.getrandbits(16)]), "strtype": rng.random() < 0.1}],
-                "toggle": rng.random() < 0.3}
+                "toggle": rng.random() < 0.3, "then_empty": rng.random() < 0.3}
     if j >= 145 * per + (60 if tier == "quick" else 600):
         # late NETWORK_ACK: a routed single-frame message of an acknowledged type whose NETWORK_ACK is held up beyond the sender's
         # (short) route_timeout, followed at once by a fragmented routed message - the stray NETWORK_ACK arrives while the sender
         # waits for the first fragment's: every frame of the second message must still carry that message's own header
         # (the NETWORK_ACK is held up by an MCU stall of the relay 0o1 right after its radio stored it: explicit fault "stall_on_rx")
         lr = stream(seed, "late")
+        if j % 2:
+            # cross traffic: while 0o11 writes a fragmented routed message, its child 0o111 sends a frame to its other child 0o211 - the
+            # sender passes it on (downwards) during a wait between two fragments; every fragment still goes to the sender's next hop
+            return {"seed": seed, "kind": "air", "routed": True, "late_ack": True, "cross": {"delay_ms": lr.uniform(0, 40), "n": lr.randint(1, 3)}, "route_timeout": 75,
+                    "faults": [], "msgs": [{"len": lr.randint(49, 144), "type": lr.randint(0, 127), "seed": lr.getrandbits(20), "fid": lr.getrandbits(16), "strtype": False}]}
         return {"seed": seed, "kind": "air", "routed": True, "late_ack": True, "route_timeout": lr.choice([8, 10, 12]),
                 "faults": [], "stall_on_rx": {"node": 1, "ptype": 193, "ms": lr.uniform(8, 30)},
                 "msgs": [{"len": lr.randint(0, 24), "type": lr.randint(65, 127), "seed": lr.getrandbits(20), "fid": lr.getrandbits(16), "strtype": False},
@@ -214,6 +219,14 @@ def _late_ack(scn, w, net, res, dst_key, dst):
     sim = w.sim
     msgs = [(m, payload(m["seed"], m["len"])) for m in scn["msgs"]]
     a0 = len(w.air.trace)
+    if scn.get("cross"):
+        cr = scn["cross"]
+
+        def do_x(node):
+            import circuitpython_nrf24l01.network.mixins as mix
+            mix.time.sleep(cr["delay_ms"] / 1000)
+            return [node.write(RF24NetworkFrame(RF24NetworkHeader(0o211, 1), b"cross%d" % k)) for k in range(cr["n"])]
+        cx = net.post(73, "write", do_x)
 
     def do(node):
         node.route_timeout = scn["route_timeout"]
@@ -228,6 +241,19 @@ def _late_ack(scn, w, net, res, dst_key, dst):
     if not c.done or c.exc is not None:
         res.add("fragments", {"kind": "write_raised_or_hung", "exc": type(c.exc).__name__}, "write() %r" % (c.exc,))
         return
+    if scn.get("cross"):
+        net.wait(cx, timeout=20_000 * MS)
+        net.wait_quiet(quiet=8 * MS, timeout=2000 * MS)
+        fr_ = [t for t in w.air.trace[a0:] if t["src"] == "n9" and not t["ack"] and len(t["data"]) >= 8 and t["data"][6] in (148, 149, 150)]
+        fw_ = [t for t in w.air.trace[a0:] if t["src"] == "n9" and not t["ack"] and len(t["data"]) >= 8 and (t["data"][0] | (t["data"][1] << 8)) == 0o111]
+        if fr_ and fw_ and fr_[0]["t0"] < fw_[0]["t0"] < fr_[-1]["t0"]:
+            sim.count("forwarded_between_two_fragments")
+        bad = [t for t in fr_ if t["addr"] != fr_[0]["addr"]]
+        if bad:
+            res.add("fragments", {"kind": "fragment_to_other_address", "cross": True},
+                    "fragment type %d (reserved %d) of the sender's own message went to pipe address %s, the first fragment went to %s (a frame from 0o111 for 0o211 was passed on in between)"
+                    % (bad[0]["data"][6], bad[0]["data"][7], bad[0]["addr"].hex(), fr_[0]["addr"].hex()))
+            return
     if c.result[0] is False:
         sim.count("first_write_timed_out")
     acks = [t for t in w.air.trace[a0:] if t["src"] == "n1" and not t["ack"] and len(t["data"]) >= 8 and t["data"][6] == 193 and ("n9", "stored") in [tuple(x) for x in t["rx"]]]
@@ -236,12 +262,12 @@ def _late_ack(scn, w, net, res, dst_key, dst):
         sim.count("stray_network_ack_during_fragment_wait")
     sent = []
     for t in w.air.trace[a0:]:
-        if t["src"] == "n9" and not t["ack"] and (not sent or sent[-1] != t["data"]):
-            sent.append(t["data"])
+        if t["src"] == "n9" and not t["ack"] and (not sent or sent[-1] != t["data"]) and (len(t["data"]) < 8 or (t["data"][0] | (t["data"][1] << 8)) == 0o11):
+            sent.append(t["data"])          # (the sender's own frames; what it passes on for others is not its message)
     ref = []
     for (m, data) in msgs:
         ref += netref.fragment(0o11, dst, m["fid"], m["type"], data)
-    want = ref if c.result[1] else ref[:len(sent)]
+    want = ref if c.result[-1] else ref[:len(sent)]
     if sent != want:
         bad = next((j for j in range(min(len(sent), len(want))) if sent[j] != want[j]), min(len(sent), len(want)))
         res.add("fragments", {"kind": "frame_mismatch", "late_ack": True, "at": min(bad, 2)},
@@ -249,7 +275,7 @@ def _late_ack(scn, w, net, res, dst_key, dst):
                 % (bad, sent[bad].hex() if bad < len(sent) else None, want[bad].hex() if bad < len(want) else None, len(sent), len(want), c.result))
         return
     res.nontrivial = True
-    if c.result[1]:
+    if c.result[-1] and (len(c.result) < 2 or len(msgs) == 2):
         ra = netref.TmrhReassembler()
         for f in sent:
             ra.feed(f)
@@ -267,6 +293,10 @@ def _run(scn, w, net, res):
         net.add(2, "net", 0o2, knobs=fast)
     if scn.get("late_ack"):
         net.add(9, "net", 0o11, knobs=fast)       # the sender of this family: 0o11 -> 0o1 -> 0 -> 0o2
+    if scn.get("cross"):
+        net.add(73, "net", 0o111, knobs=fast)
+        net.add(137, "net", 0o211, knobs=fast)
+    if scn.get("late_ack") and scn.get("stall_on_rx"):
         rule = scn["stall_on_rx"]
         relay = net.nodes[rule["node"]]
         fired = []
@@ -284,10 +314,20 @@ def _run(scn, w, net, res):
     if scn.get("late_ack"):
         _late_ack(scn, w, net, res, dst_key, dst)
         net.shutdown()
-        res.isig = hashlib.blake2b(repr((scn["msgs"], scn["stall_on_rx"], "late")).encode(), digest_size=8).hexdigest()
+        res.isig = hashlib.blake2b(repr((scn["msgs"], scn.get("stall_on_rx"), scn.get("cross"), "late")).encode(), digest_size=8).hexdigest()
         res.sample = {"msgs": [(m["len"], m["type"], m["fid"]) for m in scn["msgs"]], "late_ack": True, "routed": True}
         return
-    for m in scn["msgs"]:
+    msgs_ = list(scn["msgs"])
+    if scn.get("then_empty") and len(msgs_) == 1 and not scn.get("faults"):
+        # a header-only message (no body at all) right after one with a body: every node's frame buffer still holds the previous body
+        msgs_.append({"len": 0, "type": (msgs_[0]["type"] + 1) & 0x7F, "seed": 1, "fid": (msgs_[0]["fid"] + 1) & 0xFFFF, "strtype": False})
+    for mi_, m in enumerate(msgs_):
+        if scn.get("heals") and mi_ == 1:
+            # between the two messages the sender receives something (the peer writes to it)
+            cr_ = net.call(0, "write", lambda node: node.write(RF24NetworkFrame(RF24NetworkHeader(0o1, 9), b"hello")), timeout=5000 * MS)
+            net.wait_quiet(quiet=8 * MS, timeout=2000 * MS)
+            if cr_.done and cr_.result is True:
+                sim.count("reception_between_two_messages")
         data = payload(m["seed"], m["len"])
         typ = m["type"]
         box = {}
@@ -339,6 +379,14 @@ def _run(scn, w, net, res):
                     "message of %d bytes type %d id %d: frame %d on the air is %s, reference fragmenter says %s (%d frames sent, %d expected)"
                     % (m["len"], typ, m["fid"], bad, sent[bad].hex() if bad < len(sent) else None, want[bad].hex() if bad < len(want) else None, len(sent), len(want)))
             return
+        if routed and k is None:
+            fwd = []
+            for t in w.air.trace[a0:]:
+                if t["src"] == "n0" and not t["ack"] and len(t["data"]) >= 8 and t["data"][6] != 193 and (t["data"][0] | (t["data"][1] << 8)) == 0o1 and (not fwd or fwd[-1] != t["data"]):
+                    fwd.append(t["data"])
+            if fwd != sent[:len(fwd)] or (c.result and len(fwd) != len(sent)):
+                res.add("fragments", {"kind": "forwarded_frame_differs"}, "the relay passed on %r, the sender emitted %r" % ([f.hex() for f in fwd][:4], [f.hex() for f in sent][:4]))
+                return
         if any(len(f) > 32 for f in sent):
             res.add("fragments", {"kind": "frame_too_long"}, "a frame longer than 32 bytes was produced")
         if len(ref) > 1:
